@@ -64,3 +64,18 @@ Theorem C02_trim_cuts : forall isspace t n, t <> [] -> n <> [] ->
     /\ (s = 0 \/ (unbalanced (lastn s t) = false /\ splits_star t (length t - s) = false)).
 Proof. exact trim_cuts. Qed.
 Print Assumptions C02_trim_cuts.
+
+(* what trimming is for: the engine replaces only the untrimmed middle t[p..|t|-s) by n[p..|n|-s), in place - and that IS replacing
+   the whole target by the whole new text, in every surrounding text (pre, post arbitrary), whenever the cuts satisfy the contract
+   (which C02_trim_contract gives for every pair of texts) *)
+Theorem C02_trim_replace : forall (t n : str) p s (pre post : str), Good t n (p, s) ->
+  firstn (length pre + p) (pre ++ t ++ post) ++ slice n p (length n - s) ++ skipn (length pre + (length t - s)) (pre ++ t ++ post)
+  = pre ++ n ++ post.
+Proof. exact trim_replace. Qed.
+Print Assumptions C02_trim_replace.
+Theorem C02_trimmed_edit_is_the_edit : forall isspace (t n pre post : str),
+  let '(p, s) := trim isspace t n in
+  firstn (length pre + p) (pre ++ t ++ post) ++ slice n p (length n - s) ++ skipn (length pre + (length t - s)) (pre ++ t ++ post)
+  = pre ++ n ++ post.
+Proof. intros isspace t n pre post. pose proof (trim_contract isspace t n) as H. destruct (trim isspace t n) as [p s]. now apply trim_replace. Qed.
+Print Assumptions C02_trimmed_edit_is_the_edit.
